@@ -556,3 +556,866 @@ Proof.
   destruct (u_set_distribution_params (b_contra b) a ckw) as [c' o] eqn:E. injection H as _ ->.
   apply (u_D_rest (b_contra b) a ckw c' r Hn E).
 Qed.
+
+(** ** The Midline steps *)
+Section Surplus.
+  Variable m0 : midline.
+  Hypothesis Hsafe : m_names_ok m0 = true.
+  Notation like := (SafeMidline.like_ei m0).
+  Notation St := (SafeMidline.St m0).
+  Definition nT : nat := length (SafeMidline.TK m0).
+  Definition nL : nat := length (SafeMidline.LK m0).
+  Definition nD : nat := length (SafeMidline.DK m0).
+  Lemma like_len u : like u -> length (u_sel_items T u) = nT /\ length (u_sel_items L u) = nL /\ length (u_dist_items u) = nD.
+  Proof.
+    intros (_ & HT & HL & HD). unfold nT, nL, nD. rewrite <- HT, <- HL, <- HD, !map_length. repeat split.
+  Qed.
+  Definition needT (mk : midline) : nat := match ml_mixing mk with Some _ => nT + nT + 1 | None => nT + nT + nT end.
+
+  Lemma m_T_app mk a extra kw : St mk -> needT mk <= length a ->
+    m_set_tumor_spread_params mk (a ++ extra) kw = ext_res extra (m_set_tumor_spread_params mk a kw).
+  Proof.
+    intros HS Hl.
+    destruct (SafeMidline.St_ext m0 Hsafe mk HS) as (_ & Hei & Hec & _).
+    destruct (SafeMidline.St_noext m0 Hsafe mk HS) as (_ & Hni & Hnc & _).
+    destruct (like_len _ Hei) as (Lei & _). destruct (like_len _ Hec) as (Lec & _).
+    destruct (like_len _ Hni) as (Lni & _). destruct (like_len _ Hnc) as (Lnc & _).
+    assert (Hl2 : nT + nT <= length a) by (unfold needT in Hl; destruct (ml_mixing mk); lia).
+    unfold m_set_tumor_spread_params. destruct (unflatten_and_split kw ["ipsi"; "noext"; "ext"; "contra"]) as [split glob].
+    set (ikw := obj_kwargs "ipsi" split glob).
+    assert (Hc : match ml_central mk with
+                 | None => (mk, true)
+                 | Some c => let '(c', ok) := ok_of (b_set_tumor_spread_params c (a ++ extra) ikw) in (ml_with_central mk c', ok)
+                 end
+               = match ml_central mk with
+                 | None => (mk, true)
+                 | Some c => let '(c', ok) := ok_of (b_set_tumor_spread_params c a ikw) in (ml_with_central mk c', ok)
+                 end).
+    { destruct (ml_central mk) as [c|] eqn:Ec; [|reflexivity].
+      destruct (SafeMidline.St_central m0 Hsafe mk c HS Ec) as (c0 & _ & (_ & Hci & Hcc & _)).
+      destruct (like_len _ Hci) as (Lci & _). destruct (like_len _ Hcc) as (Lcc & _).
+      unfold b_set_tumor_spread_params. rewrite b_side_app, ok_of_ext; [reflexivity | apply Hci |].
+      change (u_sel_items is_tumor_spread) with (u_sel_items T). rewrite Lci, Lcc. destruct (b_symT c); lia. }
+    rewrite Hc.
+    destruct (match ml_central mk with
+              | None => (mk, true)
+              | Some c => let '(c', ok) := ok_of (b_set_tumor_spread_params c a ikw) in (ml_with_central mk c', ok)
+              end) as [m1 ok1] eqn:Ec.
+    destruct (central_step_frame mk (fun c => ok_of (b_set_tumor_spread_params c a ikw)) m1 ok1 Ec) as (He1 & Hn1 & Hm1 & _).
+    destruct ok1; cbn [negb]; [|reflexivity].
+    rewrite He1. unfold u_set_tumor_spread_params. change is_tumor_spread with T.
+    rewrite (u_sel_app T (b_ipsi (ml_ext mk)) a extra ikw) by lia. rewrite ok_of_ext.
+    destruct (ok_of (lift_graph (b_ipsi (ml_ext mk)) (graph_set_params_sel T (u_graph (b_ipsi (ml_ext mk))) a ikw))) as [ei' ok2].
+    destruct ok2; cbn [negb]; [|reflexivity].
+    autorewrite with mlf. rewrite Hn1.
+    rewrite (u_sel_app T (b_ipsi (ml_noext mk)) a extra ikw) by lia.
+    destruct (lift_graph (b_ipsi (ml_noext mk)) (graph_set_params_sel T (u_graph (b_ipsi (ml_noext mk))) a ikw)) as [ni' [a3|]] eqn:E3;
+      unfold ext_res at 1; cbn [fst snd option_map]; [|reflexivity].
+    destruct (leaf_step_inv T _ a ikw ni' a3 (proj1 Hni) E3) as (q3 & _ & _ & ->). rewrite Lni.
+    autorewrite with mlf. rewrite Hm1.
+    destruct (ml_mixing mk) as [cur|] eqn:Emix.
+    - unfold needT in Hl. rewrite Emix in Hl.
+      rewrite (u_sel_app T (b_contra (ml_noext mk)) (skipn nT a) extra) by (rewrite skipn_length; lia).
+      destruct (lift_graph (b_contra (ml_noext mk)) (graph_set_params_sel T (u_graph (b_contra (ml_noext mk))) (skipn nT a) (obj_kwargs "contra" split glob)))
+        as [nc' [a4|]] eqn:E4; unfold ext_res at 1; cbn [fst snd option_map]; [|reflexivity].
+      destruct (leaf_step_inv T _ _ _ nc' a4 (proj1 Hnc) E4) as (q4 & _ & _ & ->). rewrite Lnc.
+      destruct (skipn nT (skipn nT a)) as [|x a5] eqn:E5.
+      { exfalso. apply (f_equal (@length _)) in E5. rewrite !skipn_length in E5. cbn in E5. lia. }
+      cbn [app popfirst]. destruct (check_unit _); [|reflexivity].
+      destruct (ok_of _) as [ec' ok6]. destruct ok6; reflexivity.
+    - unfold needT in Hl. rewrite Emix in Hl.
+      destruct (unflatten_and_split (sub_kwargs "noext" split) ["contra"]) as [nsplit ng].
+      rewrite (u_sel_app T (b_contra (ml_noext mk)) (skipn nT a) extra) by (rewrite skipn_length; lia).
+      destruct (lift_graph (b_contra (ml_noext mk)) (graph_set_params_sel T (u_graph (b_contra (ml_noext mk))) (skipn nT a) (obj_kwargs "contra" nsplit glob)))
+        as [nc' [a4|]] eqn:E4; unfold ext_res at 1; cbn [fst snd option_map]; [|reflexivity].
+      destruct (leaf_step_inv T _ _ _ nc' a4 (proj1 Hnc) E4) as (q4 & _ & _ & ->). rewrite Lnc.
+      destruct (unflatten_and_split (sub_kwargs "ext" split) ["contra"]) as [esplit eg].
+      autorewrite with mlf. rewrite ?He1.
+      rewrite (u_sel_app T (b_contra (ml_ext mk)) (skipn nT (skipn nT a)) extra) by (rewrite !skipn_length; lia).
+      destruct (lift_graph (b_contra (ml_ext mk)) _) as [ec' o5]. reflexivity.
+  Qed.
+
+  Lemma St_set_ok mk : St mk -> mid_set_ok mk = true.
+  Proof. intros HS. apply safe_set_ok_mid, (SafeMidline.m_names_ok_sk mk m0 HS Hsafe). Qed.
+  Lemma m_T_rest mk a kw m1 a1 : St mk -> m_set_tumor_spread_params mk a kw = (m1, Some a1) -> a1 = skipn (needT mk) a /\ St m1.
+  Proof.
+    intros HS H. split.
+    - destruct (SafeMidline.St_ext m0 Hsafe mk HS) as (_ & Hei & Hec & _).
+      destruct (SafeMidline.St_noext m0 Hsafe mk HS) as (_ & Hni & Hnc & _).
+      destruct (like_len _ Hei) as (Lei & _). destruct (like_len _ Hec) as (Lec & _). destruct (like_len _ Hnc) as (Lnc & _).
+      destruct (unflatten_and_split kw X4) as [split glob] eqn:Hu. unfold needT.
+      destruct (ml_mixing mk) as [cur|] eqn:Emix.
+      + destruct (m_T_inv_mix mk a kw split glob (St_set_ok mk HS) Hu cur m1 a1 Emix H) as (qI & qC & mix & qE & _ & _ & _ & _ & _ & _ & _ & _ & _ & _ & _ & ->).
+        unfold ml_ei, ml_nc. change (u_tumor_items ?u) with (u_sel_items T u). rewrite Lei, Lnc. reflexivity.
+      + destruct (m_T_inv_nomix mk a kw split glob (St_set_ok mk HS) Hu m1 a1 Emix H)
+          as (qI & qC & qE & nsplit & esplit & ng & eg & _ & _ & _ & _ & _ & _ & _ & _ & _ & _ & _ & _ & _ & ->).
+        unfold ml_ei, ml_nc, ml_ec. change (u_tumor_items ?u) with (u_sel_items T u). rewrite Lei, Lnc, Lec. reflexivity.
+    - pose proof (SafeProofs.sk_mid_set_tumor mk a kw) as Hsk. rewrite H in Hsk. cbn [fst] in Hsk. unfold SafeMidline.St. rewrite Hsk. exact HS.
+  Qed.
+
+  (** LNL spread *)
+  Definition needL (mk : midline) : nat := if ml_symL mk then nL else nL + nL.
+  Lemma lnl_block_app ls : forall mk a extra kwL, leaves_like m0 mk -> nL <= length a ->
+    m_set_lnl_block mk ls (a ++ extra) kwL = ext_res extra (m_set_lnl_block mk ls a kwL).
+  Proof.
+    induction ls as [|l r IH]; intros mk a extra kwL HI Hl; [reflexivity|]. cbn [m_set_lnl_block].
+    destruct (ml_leaf mk l) as [u|] eqn:El; [|apply IH; assumption].
+    destruct (like_len u (HI l u El)) as (_ & Lu & _).
+    unfold u_set_lnl_spread_params. change sel_lnl with L. rewrite (u_sel_app L u a extra kwL) by lia.
+    pose proof (SafeProofs.sk_uni_graph_set L u a kwL) as Hsk.
+    destruct (lift_graph u (graph_set_params_sel L (u_graph u) a kwL)) as [u' [a'|]]; unfold ext_res at 1; cbn [fst snd option_map]; [|reflexivity].
+    cbn [fst] in Hsk. destruct r as [|l2 r2]; [reflexivity|]. apply IH; [|exact Hl].
+    apply leaves_like_with; [exact HI | congruence | apply (SafeMidline.like_ei_sk m0 u' u (HI l u El) Hsk)].
+  Qed.
+  Lemma m_L_app mk a extra kw : St mk -> needL mk <= length a ->
+    m_set_lnl_spread_params mk (a ++ extra) kw = ext_res extra (m_set_lnl_spread_params mk a kw).
+  Proof.
+    intros HS Hl. unfold m_set_lnl_spread_params, needL in *.
+    destruct (unflatten_and_split kw ["ipsi"; "noext"; "ext"; "contra"]) as [split glob].
+    pose proof (St_leaves_like m0 Hsafe mk HS) as HI.
+    destruct (ml_symL mk).
+    - apply lnl_block_app; assumption.
+    - rewrite lnl_block_app by (try exact HI; lia).
+      destruct (m_set_lnl_block mk [LCentralIpsi; LExtIpsi; LNoextIpsi] a (obj_kwargs "ipsi" split glob)) as [m1 [a1|]] eqn:B1;
+        unfold ext_res at 1; cbn [fst snd option_map andthen]; [|reflexivity].
+      assert (Hnd1 : NoDup [LCentralIpsi; LExtIpsi; LNoextIpsi]) by (repeat constructor; cbn; intuition discriminate).
+      destruct (lnl_block_inv _ Hnd1 mk a _ m1 a1 B1) as (_ & _ & _ & P4).
+      pose proof (P4 [LCentralIpsi; LExtIpsi] LNoextIpsi (b_ipsi (ml_noext mk)) eq_refl eq_refl) as Q4.
+      destruct (SafeMidline.St_noext m0 Hsafe mk HS) as (_ & Hni & _).
+      destruct (u_set_lnl_spread_params (b_ipsi (ml_noext mk)) a (obj_kwargs "ipsi" split glob)) as [ni' [r4|]] eqn:E4; [|discriminate].
+      cbn [snd] in Q4. injection Q4 as ->.
+      destruct (u_set_lnl_inv _ a _ ni' a1 (proj1 Hni) E4) as (qN & _ & _ & ->).
+      destruct (like_len _ Hni) as (_ & Lni & _). change (u_lnl_items ?u) with (u_sel_items L u). rewrite Lni.
+      apply lnl_block_app; [|rewrite skipn_length; lia].
+      apply (St_leaves_like m0 Hsafe). pose proof (SafeProofs.sk_mid_set_lnl_block [LCentralIpsi; LExtIpsi; LNoextIpsi] mk a (obj_kwargs "ipsi" split glob)) as Hsk.
+      rewrite B1 in Hsk. cbn [fst] in Hsk. unfold SafeMidline.St. rewrite Hsk. exact HS.
+  Qed.
+  Lemma m_L_rest mk a kw m2 a2 : St mk -> m_set_lnl_spread_params mk a kw = (m2, Some a2) -> a2 = skipn (needL mk) a /\ St m2.
+  Proof.
+    intros HS H. split.
+    - destruct (SafeMidline.St_ext m0 Hsafe mk HS) as (_ & Hei & _).
+      destruct (SafeMidline.St_noext m0 Hsafe mk HS) as (_ & _ & Hnc & _).
+      destruct (like_len _ Hei) as (_ & Lei & _). destruct (like_len _ Hnc) as (_ & Lnc & _).
+      destruct (unflatten_and_split kw X4) as [split glob] eqn:Hu.
+      destruct (m_L_inv mk a kw split glob (St_set_ok mk HS) Hu m2 a2 H) as (qI & qE & qN & _ & _ & _ & _ & _ & _ & _ & ->).
+      unfold argsC, needL, ml_ei, ml_nc. change (u_lnl_items ?u) with (u_sel_items L u). rewrite Lei, Lnc.
+      destruct (ml_symL mk); [reflexivity | apply skipn_skipn].
+    - pose proof (SafeProofs.sk_mid_set_lnl mk a kw) as Hsk. rewrite H in Hsk. cbn [fst] in Hsk. unfold SafeMidline.St. rewrite Hsk. exact HS.
+  Qed.
+
+  (** distributions *)
+  Lemma m_D_app mk a extra kw : St mk -> nD <= length a ->
+    m_set_distribution_params mk (a ++ extra) kw = ext_res extra (m_set_distribution_params mk a kw).
+  Proof.
+    intros HS Hl.
+    assert (Hb : forall b b0, SafeMidline.bi_facts m0 b b0 -> length (u_dist_items (b_ipsi b)) <= length a /\ length (u_dist_items (b_contra b)) <= length a).
+    { intros b b0 (_ & Hi & Hc & _). destruct (like_len _ Hi) as (_ & _ & Li). destruct (like_len _ Hc) as (_ & _ & Lc). lia. }
+    destruct (Hb _ _ (SafeMidline.St_ext m0 Hsafe mk HS)) as [Le1 Le2]. destruct (Hb _ _ (SafeMidline.St_noext m0 Hsafe mk HS)) as [Ln1 Ln2].
+    unfold m_set_distribution_params.
+    destruct (unflatten_and_split kw _) as [split glob].
+    rewrite (b_D_app (ml_ext mk) a extra _ Le1 Le2).
+    destruct (b_set_distribution_params (ml_ext mk) a (obj_kwargs "ext" split glob)) as [e' [r1|]]; unfold ext_res at 1; cbn [fst snd option_map]; [|reflexivity].
+    autorewrite with mlf. rewrite (b_D_app (ml_noext mk) a extra _ Ln1 Ln2).
+    destruct (b_set_distribution_params (ml_noext mk) a (obj_kwargs "noext" split glob)) as [n' [r2|]]; unfold ext_res at 1; cbn [fst snd option_map]; [|reflexivity].
+    autorewrite with mlf.
+    assert (Hk : forall k, ml_unknown mk = Some k ->
+              b_set_distribution_params k (a ++ extra) (obj_kwargs "unknown" split glob) = ext_res extra (b_set_distribution_params k a (obj_kwargs "unknown" split glob))).
+    { intros k Ek. destruct (SafeMidline.St_unknown m0 Hsafe mk k HS Ek) as (k0 & _ & Hf). destruct (Hb _ _ Hf) as [L1 L2]. apply b_D_app; assumption. }
+    destruct (ml_central mk) as [c|] eqn:Ec.
+    - destruct (SafeMidline.St_central m0 Hsafe mk c HS Ec) as (c0 & _ & Hf). destruct (Hb _ _ Hf) as [Lc1 Lc2].
+      rewrite (b_D_app c a extra _ Lc1 Lc2).
+      destruct (b_set_distribution_params c a (obj_kwargs "central" split glob)) as [c' [r3|]]; unfold ext_res at 1; cbn [fst snd option_map]; [|reflexivity].
+      autorewrite with mlf. destruct (ml_unknown mk) as [k|] eqn:Ek; [|reflexivity].
+      rewrite (Hk k eq_refl). destruct (b_set_distribution_params k a (obj_kwargs "unknown" split glob)) as [k' o]. reflexivity.
+    - cbv beta iota. autorewrite with mlf. destruct (ml_unknown mk) as [k|] eqn:Ek; [|reflexivity].
+      rewrite (Hk k eq_refl). destruct (b_set_distribution_params k a (obj_kwargs "unknown" split glob)) as [k' o]. reflexivity.
+  Qed.
+  Lemma m_D_rest mk a kw m' r : St mk -> m_set_distribution_params mk a kw = (m', Some r) -> r = skipn nD a.
+  Proof.
+    intros HS H.
+    assert (Hb : forall b b0 b' x, SafeMidline.bi_facts m0 b b0 -> b_set_distribution_params b a x = (b', Some r) -> r = skipn nD a).
+    { intros b b0 b' x (_ & _ & Hc & _) E. destruct (like_len _ Hc) as (_ & _ & Lc). rewrite <- Lc. apply (b_D_rest b a x b' r (proj1 Hc) E). }
+    unfold m_set_distribution_params in H. destruct (unflatten_and_split kw _) as [split glob].
+    destruct (b_set_distribution_params (ml_ext mk) a (obj_kwargs "ext" split glob)) as [e' [r1|]]; [|discriminate].
+    autorewrite with mlf in H.
+    destruct (b_set_distribution_params (ml_noext mk) a (obj_kwargs "noext" split glob)) as [n' [r2|]] eqn:E2; [|discriminate].
+    autorewrite with mlf in H.
+    destruct (ml_central mk) as [c|] eqn:Ec.
+    - destruct (SafeMidline.St_central m0 Hsafe mk c HS Ec) as (c0 & _ & Hf).
+      destruct (b_set_distribution_params c a (obj_kwargs "central" split glob)) as [c' [r3|]] eqn:E3; cbv beta iota in H; [|discriminate].
+      autorewrite with mlf in H. destruct (ml_unknown mk) as [k|] eqn:Ek.
+      + destruct (SafeMidline.St_unknown m0 Hsafe mk k HS Ek) as (k0 & _ & Hfk).
+        destruct (b_set_distribution_params k a (obj_kwargs "unknown" split glob)) as [k' o] eqn:E4. injection H as _ ->.
+        apply (Hb _ _ _ _ Hfk E4).
+      + injection H as _ <-. apply (Hb _ _ _ _ Hf E3).
+    - cbv beta iota in H. autorewrite with mlf in H. destruct (ml_unknown mk) as [k|] eqn:Ek.
+      + destruct (SafeMidline.St_unknown m0 Hsafe mk k HS Ek) as (k0 & _ & Hfk).
+        destruct (b_set_distribution_params k a (obj_kwargs "unknown" split glob)) as [k' o] eqn:E4. injection H as _ ->.
+        apply (Hb _ _ _ _ Hfk E4).
+      + injection H as _ <-. apply (Hb _ _ _ _ (SafeMidline.St_noext m0 Hsafe mk HS) E2).
+  Qed.
+
+  (** the chain *)
+  Lemma need_St mk m1 : St mk -> St m1 -> needT m1 = needT mk /\ needL m1 = needL mk.
+  Proof.
+    intros H1 H2. unfold needT, needL. rewrite (SafeMidline.St_symL m0 mk H1), (SafeMidline.St_symL m0 m1 H2). split; [|reflexivity].
+    pose proof (SafeMidline.St_mixing m0 mk H1) as A. pose proof (SafeMidline.St_mixing m0 m1 H2) as B.
+    destruct (ml_mixing mk) as [x|], (ml_mixing m1) as [y|]; try reflexivity; exfalso.
+    - destruct (proj2 B (proj1 A (ex_intro _ x eq_refl))) as (q & Hq). discriminate.
+    - destruct (proj2 A (proj1 B (ex_intro _ y eq_refl))) as (q & Hq). discriminate.
+  Qed.
+  Lemma chain_app mk a extra kw : St mk -> needT mk + needL mk + nD <= length a ->
+    andthen (m_set_spread_params mk (a ++ extra) kw) (fun m1 a1 => m_set_distribution_params m1 a1 kw)
+    = ext_res extra (andthen (m_set_spread_params mk a kw) (fun m1 a1 => m_set_distribution_params m1 a1 kw)).
+  Proof.
+    intros HS Hl. unfold m_set_spread_params. rewrite (m_T_app mk a extra kw HS) by lia.
+    destruct (m_set_tumor_spread_params mk a kw) as [m1 [a1|]] eqn:ET; unfold ext_res at 1; cbn [fst snd option_map andthen]; [|reflexivity].
+    destruct (m_T_rest mk a kw m1 a1 HS ET) as [-> HS1]. destruct (need_St mk m1 HS HS1) as [NT NL].
+    rewrite (m_L_app m1 _ extra kw HS1) by (rewrite skipn_length; lia).
+    destruct (m_set_lnl_spread_params m1 (skipn (needT mk) a) kw) as [m2 [a2|]] eqn:EL; unfold ext_res at 1; cbn [fst snd option_map andthen]; [|reflexivity].
+    destruct (m_L_rest m1 _ kw m2 a2 HS1 EL) as [-> HS2].
+    apply (m_D_app m2 _ extra kw HS2). rewrite !skipn_length. lia.
+  Qed.
+  Lemma chain_rest mk a kw m' r : St mk ->
+    andthen (m_set_spread_params mk a kw) (fun m1 a1 => m_set_distribution_params m1 a1 kw) = (m', Some r) ->
+    r = skipn (needT mk + needL mk + nD) a.
+  Proof.
+    intros HS H. unfold m_set_spread_params in H.
+    destruct (m_set_tumor_spread_params mk a kw) as [m1 [a1|]] eqn:ET; cbn [andthen] in H; [|discriminate].
+    destruct (m_T_rest mk a kw m1 a1 HS ET) as [-> HS1]. destruct (need_St mk m1 HS HS1) as [NT NL].
+    destruct (m_set_lnl_spread_params m1 (skipn (needT mk) a) kw) as [m2 [a2|]] eqn:EL; cbn [andthen] in H; [|discriminate].
+    destruct (m_L_rest m1 _ kw m2 a2 HS1 EL) as [-> HS2].
+    rewrite (m_D_rest m2 _ kw m' r HS2 H), NL, !skipn_skipn. f_equal. lia.
+  Qed.
+End Surplus.
+
+Lemma mid_items_len m : m_names_ok m = true -> length (mid_items m) = needT m m + needL m m + nD m + 1.
+Proof.
+  intros Hsafe. pose proof (SafeMidline.St_refl m) as HS.
+  destruct (SafeMidline.St_ext m Hsafe m HS) as (_ & Hei & Hec & _).
+  destruct (SafeMidline.St_noext m Hsafe m HS) as (_ & _ & Hnc & _).
+  destruct (like_len m _ Hei) as (Tei & Lei & Dei). destruct (like_len m _ Hec) as (Tec & Lec & _). destruct (like_len m _ Hnc) as (Tnc & _ & _).
+  rewrite mid_items_split, !app_length. cbn [m_midext_item length]. unfold mid_spread_items, needT, needL, m_mixing_item, ml_ei, ml_ec, ml_nc.
+  change (u_tumor_items ?u) with (u_sel_items T u). change (u_lnl_items ?u) with (u_sel_items L u).
+  destruct (ml_mixing m), (ml_symL m); rewrite ?app_length, ?pre_length, ?app_length, ?Tei, ?Lei, ?Dei, ?Tec, ?Lec, ?Tnc; cbn [length]; lia.
+Qed.
+
+(** ** Statements *)
+(** positional call with surplus values behind a complete vector (every use_mixing x LNL
+    symmetry setting: the NUMBER of values consumed is the number of reported parameters also
+    where their order differs): the same object as without the surplus, and exactly the surplus
+    is returned (an exception stays an exception) *)
+Definition C10_mid_surplus_stmt : Prop :=
+  forall m v extra, m_names_ok m = true -> length v = length (mid_items m) ->
+    let r0 := m_set_params m (vals v) [] in
+    m_set_params m (vals v ++ extra) [] = (fst r0, match snd r0 with Some _ => Some extra | None => None end)
+    /\ (snd r0 <> None -> snd r0 = Some []).
+(** ... for arbitrary positional values (NaN / inf included) and beside arbitrary keywords *)
+Definition C10_mid_surplus_general_stmt : Prop :=
+  forall m a kw extra, m_names_ok m = true -> length a = length (mid_items m) ->
+    let r0 := m_set_params m a kw in
+    m_set_params m (a ++ extra) kw = (fst r0, match snd r0 with Some _ => Some extra | None => None end)
+    /\ (snd r0 <> None -> snd r0 = Some []).
+
+Lemma surplus_chain m mk l1 extra kw : m_names_ok m = true -> SafeMidline.St m mk -> length l1 + 1 = length (mid_items m) ->
+  let c0 := andthen (m_set_spread_params mk (l1 ++ []) kw) (fun m1 a1 => m_set_distribution_params m1 a1 kw) in
+  andthen (m_set_spread_params mk (l1 ++ extra) kw) (fun m1 a1 => m_set_distribution_params m1 a1 kw)
+  = (fst c0, match snd c0 with Some _ => Some extra | None => None end) /\ (snd c0 <> None -> snd c0 = Some []).
+Proof.
+  intros Hsafe HS Hl. rewrite app_nil_r. cbv zeta.
+  destruct (need_St m m mk (SafeMidline.St_refl m) HS) as [NT NL]. rewrite (mid_items_len m Hsafe) in Hl.
+  rewrite (chain_app m Hsafe mk l1 extra kw HS) by lia.
+  destruct (andthen (m_set_spread_params mk l1 kw) (fun m1 a1 => m_set_distribution_params m1 a1 kw)) as [m' [r|]] eqn:E;
+    unfold ext_res; cbn [fst snd option_map]; [|split; [reflexivity | intros H; exfalso; apply H; reflexivity]].
+  rewrite (chain_rest m Hsafe mk l1 kw m' r HS E). rewrite skipn_all2 by lia. split; [reflexivity | intros _; reflexivity].
+Qed.
+
+Theorem mid_surplus_general : C10_mid_surplus_general_stmt.
+Proof.
+  intros m a kw extra Hsafe Hl. pose proof (safe_names_ok_mid m Hsafe) as Hok'. cbv zeta.
+  rewrite !(m_set_params_unfold m _ kw Hok').
+  assert (Hn : length (mid_items m) <> 0) by (rewrite (mid_items_len m Hsafe); lia).
+  destruct (exists_last (l := a)) as (l1 & x & ->); [intros ->; cbn in Hl; lia|].
+  rewrite app_length in Hl. cbn [length] in Hl.
+  replace ((l1 ++ [x]) ++ extra) with (l1 ++ x :: extra) by (rewrite <- app_assoc; reflexivity).
+  replace (Z.of_nat (length (mid_items m)) - 1)%Z with (Z.of_nat (length l1) + 1 - 1)%Z by lia.
+  rewrite !popat_mid. cbv beta iota zeta.
+  destruct (match kw_get ["midext"; "prob"] kw with Some v => Some v | None => Some x end) as [v|].
+  - destruct (check_unit v) as [q|]; cbn [option_map]; [|split; [reflexivity | intros H; exfalso; apply H; reflexivity]].
+    apply (surplus_chain m (ml_with_midext m q) l1 extra kw Hsafe (SafeProofs.sk_mid_with_midext m q)). lia.
+  - apply (surplus_chain m m l1 extra kw Hsafe (SafeMidline.St_refl m)). lia.
+Qed.
+Theorem mid_surplus : C10_mid_surplus_stmt.
+Proof.
+  intros m v extra Hsafe Hl. apply (mid_surplus_general m (vals v) [] extra Hsafe). rewrite vals_length. exact Hl.
+Qed.
+
+(** * 2. set_params( **get_params()) *)
+(** every sub-model (ext, noext, central, unknown; both sides) accepts the distribution
+    parameters that get_params reports (those of ext.ipsi).  True when all sub-models carry
+    the same distributions and max_time ([Sync.m_same_config], the invariant of C11) and
+    ext.ipsi's distributions are valid: [same_config_own_dists] below *)
+Definition own_dists_accepted (m : midline) : Prop :=
+  forall u, In u (m_unis m) -> dists_put (u_maxt u) (u_dists u) (vals (map snd (u_dist_items (ml_ei m)))) <> None.
+Definition own_dists_acceptedb (m : midline) : bool :=
+  forallb (fun u => is_some (dists_put (u_maxt u) (u_dists u) (vals (map snd (u_dist_items (ml_ei m)))))) (m_unis m).
+Lemma own_dists_acceptedb_ok m : own_dists_acceptedb m = true -> own_dists_accepted m.
+Proof.
+  unfold own_dists_acceptedb. rewrite forallb_forall. intros H u Hu. specialize (H u Hu). destruct (dists_put _ _ _); [discriminate | discriminate H].
+Qed.
+
+(** Midline analogue of [C10_bi_set_own_params_is_identity_stmt]: for a well-formed object
+    whose current values are valid ([m_spread_valid]: every spread / growth / micro value of
+    every leaf and the mixing parameter lie in [0,1]; midext_prob too) and whose sub-models all
+    accept the reported distribution parameters, [set_params( **get_params())] returns normally
+    and [get_params] reports what it reported before.  No synchronisation of the sub-models is
+    assumed. *)
+Definition C10_mid_set_own_params_is_identity_stmt : Prop :=
+  forall m, m_names_ok m = true -> m_spread_valid m -> in_unit (ml_midext m) = true -> own_dists_accepted m ->
+    let r := m_set_params m [] (own_kwargs (mid_items m)) in
+    snd r = Some [] /\ m_got (fst r) = m_got m.
+(** ... in particular for objects in the invariant of C11 (all sub-models carry the same
+    distributions and max_time) *)
+Definition C10_mid_set_own_params_same_config_stmt : Prop :=
+  forall m, m_names_ok m = true -> m_spread_valid m -> in_unit (ml_midext m) = true ->
+    Sync.m_same_config m -> forallb (fun td => dist_valid (u_maxt (ml_ei m)) (snd td)) (u_dists (ml_ei m)) = true ->
+    let r := m_set_params m [] (own_kwargs (mid_items m)) in
+    snd r = Some [] /\ m_got (fst r) = m_got m.
+
+Lemma own_kwargs_combine (l : list (path * Qc)) : own_kwargs l = combine (map fst l) (vals (map snd l)).
+Proof. induction l as [|[k q] l IH]; [reflexivity|]. cbn. f_equal. exact IH. Qed.
+Lemma pairs_eq {A B} (l l' : list (A * B)) : map fst l = map fst l' -> map snd l = map snd l' -> l = l'.
+Proof.
+  revert l'. induction l as [|[a b] l IH]; intros [|[a' b'] l'] H1 H2; try discriminate; [reflexivity|].
+  cbn in H1, H2. injection H1 as -> H1. injection H2 as -> H2. f_equal. apply IH; assumption.
+Qed.
+Lemma forallb_cons' {A} (f : A -> bool) x l : forallb f (x :: l) = f x && forallb f l.
+Proof. reflexivity. Qed.
+Lemma spread_vals_unit m : m_spread_valid m -> forallb in_unit (map snd (m_spread_items m)) = true.
+Proof.
+  intros [Hev Hmv].
+  assert (HT : forall l u, ml_leaf m l = Some u -> forallb in_unit (map snd (u_tumor_items u)) = true)
+    by (intros l u Hl; apply sel_params_vals_unit, (Hev l u Hl)).
+  assert (HL : forall l u, ml_leaf m l = Some u -> forallb in_unit (map snd (u_lnl_items u)) = true)
+    by (intros l u Hl; apply sel_params_vals_unit, (Hev l u Hl)).
+  pose proof (HT LExtIpsi _ eq_refl) as T1. pose proof (HT LNoextContra _ eq_refl) as T2. pose proof (HT LExtContra _ eq_refl) as T3.
+  pose proof (HL LExtIpsi _ eq_refl) as L1. pose proof (HL LExtContra _ eq_refl) as L2. cbn [ml_leaf] in *.
+  unfold m_spread_items. destruct (ml_mixing m) as [mix|] eqn:Emix, (ml_symL m);
+    rewrite ?map_app, ?pre_app, ?map_app, ?forallb_app, ?pre_vals, ?map_cons, ?forallb_cons', ?T1, ?T2, ?T3, ?L1, ?L2; cbn [snd map forallb];
+    rewrite ?(Hmv mix eq_refl); cbn [andb]; first [reflexivity | exact L1 | exact L2].
+Qed.
+
+Lemma own_accepts m : m_names_ok m = true -> m_spread_valid m -> in_unit (ml_midext m) = true -> own_dists_accepted m ->
+  m_accepts m (vals (map snd (m_items m))) = true.
+Proof.
+  intros Hsafe Hval Hmid Hd. unfold m_accepts, m_items. rewrite !map_app, !vals_app. cbn [map snd vals].
+  set (S := vals (map snd (m_spread_items m))). set (D := vals (map snd (u_dist_items (m_ei m)))).
+  assert (HS : length S = length (m_spread_items m)) by (unfold S; rewrite vals_length, map_length; reflexivity).
+  assert (HD : length D = length (u_dist_items (m_ei m))) by (unfold D; rewrite vals_length, map_length; reflexivity).
+  rewrite (firstn_app_len S _ _ HS), (skipn_app_len S _ _ HS), (firstn_app_len D _ _ HD).
+  replace (skipn (length (m_spread_items m) + length (u_dist_items (m_ei m))) (S ++ D ++ [V (ml_midext m)])) with [V (ml_midext m)].
+  2:{ rewrite app_assoc. symmetry. apply skipn_app_len. rewrite app_length. lia. }
+  unfold S. rewrite (all_unit_vals _ (spread_vals_unit m Hval)). cbn [all_unit check_unit is_some andb]. rewrite Hmid. cbn [is_some andb].
+  apply forallb_forall. intros u Hu. specialize (Hd u Hu). unfold D, m_ei. unfold ml_ei in Hd. destruct (dists_put _ _ _); [reflexivity | congruence].
+Qed.
+
+Theorem mid_set_own_params_is_identity : C10_mid_set_own_params_is_identity_stmt.
+Proof.
+  intros m Hsafe Hval Hmid Hd r. subst r.
+  pose proof (safe_names_ok_mid m Hsafe) as Hok'. pose proof (safe_set_ok_mid m Hsafe) as Hok.
+  set (v := map snd (mid_items m)).
+  assert (Hl : length v = length (mid_items m)) by (unfold v; apply map_length).
+  assert (Hkw : own_kwargs (mid_items m) = kw_of (map fst (mid_items m)) v) by apply own_kwargs_combine.
+  rewrite Hkw.
+  assert (Hret : snd (m_set_params m [] (kw_of (map fst (mid_items m)) v)) = Some []).
+  { pose proof (own_accepts m Hsafe Hval Hmid Hd) as Hacc.
+    assert (Hl' : length (vals (map snd (m_items m))) = length (m_items m)) by (rewrite vals_length, map_length; reflexivity).
+    destruct (SafeMidline.m_set_accept m _ Hsafe safe_mid_names_nodup Hl' Hacc) as (q & qTi & qTc & qTe & mixo & qLi & qLc & Hset & _).
+    unfold SafeMidline.mkw, m_names in Hset. rewrite safe_items_mid in Hset. unfold kw_of. fold v in Hset. rewrite Hset. reflexivity. }
+  split; [exact Hret|].
+  destruct (mid_set_get_keyword m v Hok Hl) as [Hv Hk]; [rewrite Hret; discriminate|].
+  rewrite (m_got_spec m Hok'). destruct (m_got (fst (m_set_params m [] (kw_of (map fst (mid_items m)) v)))) as [its'|]; [|discriminate].
+  cbn [option_map] in Hv, Hk. injection Hv as Hv. injection Hk as Hk. f_equal. apply pairs_eq; assumption.
+Qed.
+
+Lemma same_config_own_dists m : Sync.m_same_config m ->
+  forallb (fun td => dist_valid (u_maxt (ml_ei m)) (snd td)) (u_dists (ml_ei m)) = true -> own_dists_accepted m.
+Proof.
+  intros Hc Hv u Hu.
+  assert (Hin : In u (Sync.all_leaves m)).
+  { unfold m_unis, m_bis in Hu. apply in_flat_map in Hu. destruct Hu as (b & Hb & Hu). unfold Sync.all_leaves, Sync.ext_i, Sync.ext_c, Sync.noext_i, Sync.noext_c.
+    cbn [app In] in Hb. destruct Hb as [<-|[<-|Hb]].
+    - destruct Hu as [<-|[<-|[]]]; cbn; tauto.
+    - destruct Hu as [<-|[<-|[]]]; cbn; tauto.
+    - apply in_app_iff in Hb. do 4 right. unfold opt_list in Hb. rewrite !in_app_iff.
+      destruct Hb as [Hb|Hb]; [destruct (ml_central m) as [c|] | destruct (ml_unknown m) as [k|]]; cbn in Hb; try tauto;
+        destruct Hb as [<-|[]]; destruct Hu as [<-|[<-|[]]]; cbn; tauto. }
+  destruct (Hc u Hin) as (_ & Hds & Hmt). change (Sync.ext_i m) with (ml_ei m) in Hds, Hmt. rewrite Hds, Hmt.
+  unfold u_dist_items. rewrite (dists_put_own _ _ Hv). discriminate.
+Qed.
+Theorem mid_set_own_params_same_config : C10_mid_set_own_params_same_config_stmt.
+Proof.
+  intros m Hsafe Hval Hmid Hc Hv. apply (mid_set_own_params_is_identity m Hsafe Hval Hmid (same_config_own_dists m Hc Hv)).
+Qed.
+
+(** * 4. Specific names over global names (spread / growth / micro parameters) *)
+(** the first keyword that is passed, in the order of the candidates *)
+Definition first4 (a b c d : option val) : option val :=
+  match a with Some v => Some v | None => match b with Some v => Some v | None => match c with Some v => Some v | None => d end end end.
+
+(** A spread-type parameter is reported as [P ++ [arc; kind]] with the routing prefix [P] =
+    "ipsi" / "contra" / "noext_contra" / "ext_contra" / nothing (symmetric LNL spread), e.g.
+    "ipsi_TtoII_spread".  The keyword it receives is the first that is passed among
+    "ipsi_TtoII_spread" (the parameter itself), "TtoII_spread" (the arc in every sub-model),
+    "ipsi_spread" (every arc of that side), "spread" (every arc): if the call returns,
+    get_params reports that keyword's value WHATEVER the positional arguments are.
+    Mirror of [C10_uni_keyword_over_positional_stmt] + [C10_uni_specific_over_global_stmt]. *)
+Definition C10_mid_specific_over_global_stmt : Prop :=
+  forall m a kw P n s q, mid_set_ok m = true -> NoDup (map fst kw) ->
+    In (P ++ [n; s]) (map fst (mid_spread_items m)) ->
+    first4 (kw_get (P ++ [n; s]) kw) (kw_get [n; s] kw) (kw_get (P ++ [s]) kw) (kw_get [s] kw) = Some (V q) ->
+    let r := m_set_params m a kw in
+    snd r <> None -> option_map (kw_get (P ++ [n; s])) (m_got (fst r)) = Some (Some q).
+
+Lemma kind_notX4 s : kind s -> ~ In s X4.
+Proof. unfold kind. cbn. intuition (subst; discriminate). Qed.
+Lemma app_eq_len' {A} (P Q S S' : list A) : length S = length S' -> P ++ S = Q ++ S' -> P = Q /\ S = S'.
+Proof.
+  revert Q. induction P as [|p P IH]; intros [|q0 Q] Hl E; cbn in E.
+  - auto.
+  - exfalso. subst S. cbn in Hl. rewrite app_length in Hl. lia.
+  - exfalso. subst S'. cbn in Hl. rewrite app_length in Hl. lia.
+  - injection E as -> E. destruct (IH Q Hl E) as [-> ->]. auto.
+Qed.
+
+Section LkEq.
+  Variable kw : kwargs.
+  Hypothesis Hnd : NoDup (map fst kw).
+  Variables (split : list (string * kwargs)) (glob : kwargs).
+  Hypothesis Hu : unflatten_and_split kw X4 = (split, glob).
+  Let klg K : kw_last K kw = kw_get K kw := kw_last_get kw Hnd K.
+
+  Lemma lk_side_eq side n s : In side X4 -> ~ In n X4 -> ~ In s X4 ->
+    u_lk (obj_kwargs side split glob) [n; s] = first4 (kw_get [side; n; s] kw) (kw_get [n; s] kw) (kw_get [side; s] kw) (kw_get [s] kw).
+  Proof.
+    intros Hs Hn Hk. unfold u_lk. rewrite !kw_last_NoDup by (apply (obj_kwargs_NoDup kw X4); exact Hu).
+    rewrite !(obj_kwargs_lookup kw X4 side _ split glob not_empty_X4 Hu Hs). unfold eff, head_of. cbn [partition_key fst].
+    apply mem_false in Hn, Hk. rewrite Hn, Hk, !klg. unfold first4.
+    destruct (kw_get [side; n; s] kw); [reflexivity|]. destruct (kw_get [n; s] kw); reflexivity.
+  Qed.
+  Lemma lk_glob_eq n s : ~ In n X4 -> ~ In s X4 ->
+    u_lk glob [n; s] = first4 (kw_get [n; s] kw) (kw_get [n; s] kw) (kw_get [s] kw) (kw_get [s] kw).
+  Proof.
+    intros Hn Hk. unfold u_lk. destruct (glob_lookup kw X4 [n; s] split glob not_empty_X4 Hu) as [Hg Hgnd].
+    destruct (glob_lookup kw X4 [s] split glob not_empty_X4 Hu) as [Hg2 _].
+    rewrite !kw_last_NoDup by exact Hgnd. rewrite Hg, Hg2. unfold head_of. cbn [partition_key fst].
+    apply mem_false in Hn, Hk. rewrite Hn, Hk, !klg. unfold first4.
+    destruct (kw_get [n; s] kw); [reflexivity|]. destruct (kw_get [s] kw); reflexivity.
+  Qed.
+  Lemma lk_nested_eq side nsplit ng n s : (side = "noext" \/ side = "ext") ->
+    unflatten_and_split (sub_kwargs side split) ["contra"] = (nsplit, ng) -> ~ In n X4 -> ~ In s X4 ->
+    u_lk (obj_kwargs "contra" nsplit glob) [n; s]
+    = first4 (kw_get [side; "contra"; n; s] kw) (kw_get [n; s] kw) (kw_get [side; "contra"; s] kw) (kw_get [s] kw).
+  Proof.
+    intros Hside Hun Hn Hk. assert (Hs : In side X4) by (destruct Hside as [-> | ->]; cbn; tauto).
+    destruct (glob_lookup kw X4 [n; s] split glob not_empty_X4 Hu) as [Hg Hgnd].
+    destruct (glob_lookup kw X4 [s] split glob not_empty_X4 Hu) as [Hg2 _].
+    assert (Hcn : ~ In "" ["contra"]) by (cbn; intuition discriminate).
+    assert (Hlook : forall K, kw_get K (kw_update (sub_kwargs "contra" nsplit) glob)
+                     = match kw_get (side :: "contra" :: K) kw with Some v => Some v | None => kw_get K glob end).
+    { intros K.
+      destruct (sub_kwargs_lookup (sub_kwargs side split) ["contra"] "contra" K nsplit ng Hcn Hun (or_introl eq_refl)) as [Hsub Hsnd].
+      destruct (sub_kwargs_lookup kw X4 side ("contra" :: K) split glob not_empty_X4 Hu Hs) as [Hsub2 Hsnd2].
+      rewrite kw_get_update, kw_get_rev_NoDup by exact Hsnd. rewrite Hsub, kw_last_NoDup by exact Hsnd2. rewrite Hsub2, klg. reflexivity. }
+    unfold u_lk, obj_kwargs. rewrite !kw_last_NoDup by (apply kw_update_NoDup, Hgnd).
+    rewrite !Hlook, Hg, Hg2. unfold head_of. cbn [partition_key fst]. apply mem_false in Hn, Hk. rewrite Hn, Hk, !klg. unfold first4.
+    destruct (kw_get [side; "contra"; n; s] kw); [reflexivity|]. destruct (kw_get [n; s] kw); reflexivity.
+  Qed.
+End LkEq.
+
+Section ChainG.
+  Variables (m0 : midline) (a0 : args) (kw : kwargs) (P : path) (n s : string) (q : Qc) (m' : midline) (r : args).
+  Hypothesis Hok : mid_set_ok m0 = true.
+  Hypothesis Hnd : NoDup (map fst kw).
+  Hypothesis Hch : andthen (m_set_spread_params m0 a0 kw) (fun m1 a1 => m_set_distribution_params m1 a1 kw) = (m', Some r).
+  Hypothesis Hc : first4 (kw_get (P ++ [n; s]) kw) (kw_get [n; s] kw) (kw_get (P ++ [s]) kw) (kw_get [s] kw) = Some (V q).
+  Let ei := ml_ei m0.
+  Let ec := ml_ec m0.
+  Let nc := ml_nc m0.
+  Let Hok' : mid_names_ok m0 = true. Proof. unfold mid_set_ok in Hok. rewrite !andb_true_iff in Hok. apply Hok. Qed.
+
+  Lemma key_notX4 u k : u_names_ok u = true -> In k (map fst (u_tumor_items u)) \/ In k (map fst (u_lnl_items u)) ->
+    exists n' s', k = [n'; s'] /\ ~ In n' X4 /\ ~ In s' X4.
+  Proof.
+    intros Hu [H|H].
+    - destruct (T_key u k H) as (n' & s' & -> & Hn' & Hs'). exists n', s'. split; [reflexivity|]. split; [|apply kind_notX4, Hs'].
+      intros H4. apply (in_reserved_not_edge u n' Hu); [cbn in H4 |- *; intuition | apply TNp_EN, Hn'].
+    - destruct (L_key u k H) as (n' & s' & -> & Hn' & Hs'). exists n', s'. split; [reflexivity|]. split; [|apply kind_notX4, Hs'].
+      intros H4. apply (in_reserved_not_edge u n' Hu); [cbn in H4 |- *; intuition | apply LNp_EN, Hn'].
+  Qed.
+
+  (** identify the decomposition [P ++ [n; s] = pre ++ k] of a reported key *)
+  Ltac decomp E Hk u Hu side :=
+    let n' := fresh "n'" in let s' := fresh "s'" in let Hn' := fresh "Hn'" in let Hs' := fresh "Hs'" in
+    destruct (key_notX4 u _ Hu side) as (n' & s' & -> & Hn' & Hs');
+    apply app_eq_len' in E; [|reflexivity]; destruct E as [-> E]; injection E as -> ->.
+
+  Lemma chain_global_over :
+    mid_names_ok m' = true /\
+    (In (P ++ [n; s]) (map fst (mid_spread_items m0)) -> In (P ++ [n; s], q) (mid_items m')).
+  Proof.
+    destruct (m_ok_parts m0 Hok') as (Hei & Hec & Hnc & _ & _ & _ & _ & HbsymL). fold ei ec nc in Hei, Hec, Hnc.
+    pose proof (keys_T_nc m0 Hok') as KTnc. pose proof (keys_T_ec m0 Hok') as KTec. pose proof (keys_L_ec m0 Hok') as KLec.
+    fold ei ec nc in KTnc, KTec, KLec.
+    destruct (ml_mixing m0) as [cur|] eqn:Emix.
+    - (* with mixing *)
+      destruct (m_chain_inv_mix m0 a0 kw m' r cur Hok Emix Hch)
+        as (split & glob & qI & qC & mix & qE & qLi & qLe & qLn & m2 & dsplit & dglob & ikw & ckw & dsi & Hcc).
+      cbv zeta in Hcc. fold ei ec nc in Hcc.
+      destruct Hcc as (Hu & HqI & HqC & Hmx & HqLi & HqLe & HqLn & HuD & Hsk & Hdp & Hei' & (dsc & Hec' & Hecok) & (dsn & Hnc' & Hncok) & Hmix' & Hd' & Hs' & Hb').
+      assert (Hnames' : mid_names_ok m' = true).
+      { apply (mid_names_ok_final m0 m' qI qLi dsi qE qLe dsc qC qLn dsn _ Hok Hei' Hec' Hnc' Hecok Hncok Hdp); [apply plan_length | exact Hs' | exact Hb']. }
+      split; [exact Hnames'|].
+      destruct (leaf_after_items ei qI qLi dsi) as (I1 & I2 & I3); [apply (plan_lengths _ _ _ _ HqI) | apply (plan_lengths _ _ _ _ HqLi)|].
+      destruct (leaf_after_items nc qC qLn dsn) as (N1 & _ & _); [apply (plan_lengths _ _ _ _ HqC) | apply (plan_lengths _ _ _ _ HqLn)|].
+      pose proof (leaf_after_lnl ec qE qLe dsc (plan_lengths _ _ _ _ HqLe)) as E2.
+      fold (leaf_after ei qI qLi dsi) in Hei'. fold (leaf_after nc qC qLn dsn) in Hnc'. fold (leaf_after ec qE qLe dsc) in Hec'.
+      unfold mid_items, mid_spread_items. rewrite Hmix', Hs', Emix. unfold m_mixing_item, m_midext_item. rewrite Hmix', Emix.
+      fold ei ec nc. rewrite Hei', Hnc', Hec', I1, I2, I3, N1, E2.
+      destruct (ml_symL m0) eqn:EsymL; rewrite ?map_app, ?pre_app, ?map_app, ?in_app_iff, ?in_pre_keys; cbn [map fst In];
+        intros HK; rewrite ?pre_app, ?in_app_iff.
+      + destruct HK as [(k & E & Hk)|[(k & E & Hk)|[[E|[]]|Hk]]].
+        * left. decomp E Hk ei Hei (or_introl (B := In k (map fst (u_lnl_items ei))) Hk). apply (in_pre_items ["ipsi"]).
+          apply (block_In _ _ _ _ _ _ HqI Hk). rewrite (lk_side_eq kw Hnd split glob Hu "ipsi") by (cbn; tauto || assumption). exact Hc.
+        * right. left. decomp E Hk nc Hnc (or_introl (B := In k (map fst (u_lnl_items nc))) Hk). apply (in_pre_items ["contra"]).
+          apply (block_In _ _ _ _ _ _ HqC Hk). rewrite (lk_side_eq kw Hnd split glob Hu "contra") by (cbn; tauto || assumption). exact Hc.
+        * exfalso. apply (f_equal (@length _)) in E. rewrite app_length in E. cbn in E. lia.
+        * right. right. right. left.
+          destruct (key_notX4 ei _ Hei (or_intror Hk)) as (n' & s' & E & Hnx & Hsx).
+          assert (E' : P ++ [n; s] = [] ++ [n'; s']) by exact E. apply app_eq_len' in E'; [|reflexivity]. destruct E' as [-> E']. injection E' as -> ->.
+          cbn [app] in *. apply (block_In _ _ _ _ _ _ HqLi Hk). rewrite (lk_glob_eq kw Hnd split glob Hu) by assumption. exact Hc.
+      + destruct HK as [[(k & E & Hk)|(k & E & Hk)]|[[(k & E & Hk)|(k & E & Hk)]|[E|[]]]].
+        * left. left. decomp E Hk ei Hei (or_introl (B := In k (map fst (u_lnl_items ei))) Hk). apply (in_pre_items ["ipsi"]).
+          apply (block_In _ _ _ _ _ _ HqI Hk). rewrite (lk_side_eq kw Hnd split glob Hu "ipsi") by (cbn; tauto || assumption). exact Hc.
+        * left. right. decomp E Hk ei Hei (or_intror (A := In k (map fst (u_tumor_items ei))) Hk). apply (in_pre_items ["ipsi"]).
+          apply (block_In _ _ _ _ _ _ HqLi Hk). rewrite (lk_side_eq kw Hnd split glob Hu "ipsi") by (cbn; tauto || assumption). exact Hc.
+        * right. left. left. decomp E Hk nc Hnc (or_introl (B := In k (map fst (u_lnl_items nc))) Hk). apply (in_pre_items ["contra"]).
+          apply (block_In _ _ _ _ _ _ HqC Hk). rewrite (lk_side_eq kw Hnd split glob Hu "contra") by (cbn; tauto || assumption). exact Hc.
+        * right. left. right. decomp E Hk ec Hec (or_intror (A := In k (map fst (u_tumor_items ec))) Hk). apply (in_pre_items ["contra"]).
+          apply (block_In _ _ _ _ _ _ HqLe Hk). rewrite (lk_side_eq kw Hnd split glob Hu "contra") by (cbn; tauto || assumption). exact Hc.
+        * exfalso. apply (f_equal (@length _)) in E. rewrite app_length in E. cbn in E. lia.
+    - (* without mixing *)
+      destruct (m_chain_inv_nomix m0 a0 kw m' r Hok Emix Hch)
+        as (split & glob & nsplit & esplit & ng & eg & qI & qC & qE & qLi & qLe & qLn & m2 & dsplit & dglob & ikw & ckw & dsi & Hcc).
+      cbv zeta in Hcc. fold ei ec nc in Hcc.
+      destruct Hcc as (Hu & Hun & Hue & HqI & HqC & HqE & HqLi & HqLe & HqLn & HuD & Hsk & Hdp & Hei' & (dsc & Hec' & Hecok) & (dsn & Hnc' & Hncok) & Hmix' & Hd' & Hs' & Hb').
+      assert (Hnames' : mid_names_ok m' = true).
+      { apply (mid_names_ok_final m0 m' qI qLi dsi qE qLe dsc qC qLn dsn _ Hok Hei' Hec' Hnc' Hecok Hncok Hdp); [apply plan_length | exact Hs' | exact Hb']. }
+      split; [exact Hnames'|].
+      destruct (leaf_after_items ei qI qLi dsi) as (I1 & I2 & I3); [apply (plan_lengths _ _ _ _ HqI) | apply (plan_lengths _ _ _ _ HqLi)|].
+      destruct (leaf_after_items nc qC qLn dsn) as (N1 & _ & _); [apply (plan_lengths _ _ _ _ HqC) | apply (plan_lengths _ _ _ _ HqLn)|].
+      destruct (leaf_after_items ec qE qLe dsc) as (E1 & E2 & _); [apply (plan_lengths _ _ _ _ HqE) | apply (plan_lengths _ _ _ _ HqLe)|].
+      fold (leaf_after ei qI qLi dsi) in Hei'. fold (leaf_after nc qC qLn dsn) in Hnc'. fold (leaf_after ec qE qLe dsc) in Hec'.
+      unfold mid_items, mid_spread_items. rewrite Hmix', Hs', Emix. unfold m_midext_item.
+      fold ei ec nc. rewrite Hei', Hnc', Hec', I1, I2, I3, N1, E1, E2.
+      destruct (ml_symL m0) eqn:EsymL; rewrite ?map_app, ?pre_app, ?map_app, ?in_app_iff, ?in_pre_keys; cbn [map fst In];
+        intros HK; rewrite ?pre_app, ?in_app_iff.
+      + destruct HK as [(k & E & Hk)|[(k & E & Hk)|[(k & E & Hk)|Hk]]].
+        * left. decomp E Hk ei Hei (or_introl (B := In k (map fst (u_lnl_items ei))) Hk). apply (in_pre_items ["ipsi"]).
+          apply (block_In _ _ _ _ _ _ HqI Hk). rewrite (lk_side_eq kw Hnd split glob Hu "ipsi") by (cbn; tauto || assumption). exact Hc.
+        * right. left. decomp E Hk nc Hnc (or_introl (B := In k (map fst (u_lnl_items nc))) Hk). apply (in_pre_items ["noext"; "contra"]).
+          apply (block_In _ _ _ _ _ _ HqC Hk). rewrite (lk_nested_eq kw Hnd split glob Hu "noext" nsplit ng) by (tauto || assumption). exact Hc.
+        * right. right. left. decomp E Hk ec Hec (or_introl (B := In k (map fst (u_lnl_items ec))) Hk). apply (in_pre_items ["ext"; "contra"]).
+          apply (block_In _ _ _ _ _ _ HqE Hk). rewrite (lk_nested_eq kw Hnd split glob Hu "ext" esplit eg) by (tauto || assumption). exact Hc.
+        * right. right. right. left.
+          destruct (key_notX4 ei _ Hei (or_intror Hk)) as (n' & s' & E & Hnx & Hsx).
+          assert (E' : P ++ [n; s] = [] ++ [n'; s']) by exact E. apply app_eq_len' in E'; [|reflexivity]. destruct E' as [-> E']. injection E' as -> ->.
+          cbn [app] in *. apply (block_In _ _ _ _ _ _ HqLi Hk). rewrite (lk_glob_eq kw Hnd split glob Hu) by assumption. exact Hc.
+      + destruct HK as [[(k & E & Hk)|(k & E & Hk)]|[(k & E & Hk)|[(k & E & Hk)|(k & E & Hk)]]].
+        * left. left. decomp E Hk ei Hei (or_introl (B := In k (map fst (u_lnl_items ei))) Hk). apply (in_pre_items ["ipsi"]).
+          apply (block_In _ _ _ _ _ _ HqI Hk). rewrite (lk_side_eq kw Hnd split glob Hu "ipsi") by (cbn; tauto || assumption). exact Hc.
+        * left. right. decomp E Hk ei Hei (or_intror (A := In k (map fst (u_tumor_items ei))) Hk). apply (in_pre_items ["ipsi"]).
+          apply (block_In _ _ _ _ _ _ HqLi Hk). rewrite (lk_side_eq kw Hnd split glob Hu "ipsi") by (cbn; tauto || assumption). exact Hc.
+        * right. left. decomp E Hk nc Hnc (or_introl (B := In k (map fst (u_lnl_items nc))) Hk). apply (in_pre_items ["noext"; "contra"]).
+          apply (block_In _ _ _ _ _ _ HqC Hk). rewrite (lk_nested_eq kw Hnd split glob Hu "noext" nsplit ng) by (tauto || assumption). exact Hc.
+        * right. right. left. decomp E Hk ec Hec (or_introl (B := In k (map fst (u_lnl_items ec))) Hk). apply (in_pre_items ["ext"; "contra"]).
+          apply (block_In _ _ _ _ _ _ HqE Hk). rewrite (lk_nested_eq kw Hnd split glob Hu "ext" esplit eg) by (tauto || assumption). exact Hc.
+        * right. right. right. left. decomp E Hk ec Hec (or_intror (A := In k (map fst (u_tumor_items ec))) Hk). apply (in_pre_items ["contra"]).
+          apply (block_In _ _ _ _ _ _ HqLe Hk). rewrite (lk_side_eq kw Hnd split glob Hu "contra") by (cbn; tauto || assumption). exact Hc.
+  Qed.
+End ChainG.
+
+Theorem mid_specific_over_global : C10_mid_specific_over_global_stmt.
+Proof.
+  intros m a kw P n s q Hok Hnd HK Hc r Hr. subst r.
+  assert (Hok' : mid_names_ok m = true) by (unfold mid_set_ok in Hok; rewrite !andb_true_iff in Hok; apply Hok).
+  rewrite (m_set_params_unfold m a kw Hok') in Hr |- *.
+  destruct (popat a (Z.of_nat (length (mid_items m)) - 1)) as [[before last] after].
+  cbv beta iota zeta in Hr |- *.
+  set (mp := match kw_get ["midext"; "prob"] kw with Some v => Some v | None => last end) in *.
+  assert (H0 : exists m0, match mp with None => Some m | Some v => option_map (ml_with_midext m) (check_unit v) end = Some m0
+                          /\ mid_set_ok m0 = true /\ mid_spread_items m0 = mid_spread_items m).
+  { destruct mp as [vm|].
+    - destruct (check_unit vm) as [x|]; [|exfalso; apply Hr; reflexivity]. exists (ml_with_midext m x). repeat split. exact Hok.
+    - exists m. repeat split. exact Hok. }
+  destruct H0 as (m0 & E0 & Hok0 & Hsp0). rewrite E0 in Hr |- *.
+  destruct (andthen (m_set_spread_params m0 (before ++ after) kw) (fun m1 a1 => m_set_distribution_params m1 a1 kw)) as [m' [r|]] eqn:Ech;
+    [|exfalso; apply Hr; reflexivity]. cbn [fst snd] in *. clear Hr.
+  destruct (chain_global_over m0 (before ++ after) kw P n s q m' r Hok0 Hnd Ech Hc) as (Hn' & Hin').
+  rewrite (m_got_spec m' Hn'). cbn [option_map]. do 2 f_equal.
+  apply kw_get_NoDup_In; [apply mid_items_NoDup, Hn'|]. apply Hin'. rewrite Hsp0. exact HK.
+Qed.
+
+(** * The hypotheses of [C10_mid_set_own_params_is_identity_stmt] are needed *)
+(** (a) without [own_dists_accepted]: every leaf is valid on its own and the object is
+    well-formed, but noext.contra carries a binomial "late" distribution while ext.ipsi carries
+    a linear one whose (unused) keyword p = 3/2 is reported as "late_p": the call hands 3/2 to
+    every sub-model and raises *)
+Definition C10_mid_set_own_params_needs_same_config_refuted_stmt : Prop :=
+  exists m, m_names_ok m = true /\ m_spread_valid m /\ in_unit (ml_midext m) = true /\
+    forallb u_vals_ok (m_unis m) = true /\
+    snd (m_set_params m [] (own_kwargs (mid_items m))) = None.
+(** (b) the stronger reading "the OBJECT is unchanged" (as for Unilateral) is false without
+    the synchronisation invariant of C11: all hypotheses of the theorem hold, the call returns
+    and get_params is unchanged, but ext.contra (out of sync: TtoII_spread = 9/10) is reset to
+    the mixture *)
+Definition C10_mid_set_own_params_model_identity_refuted_stmt : Prop :=
+  exists m, m_names_ok m = true /\ m_spread_valid m /\ in_unit (ml_midext m) = true /\ own_dists_accepted m /\
+    snd (m_set_params m [] (own_kwargs (mid_items m))) = Some [] /\
+    fst (m_set_params m [] (own_kwargs (mid_items m))) <> m.
+
+Definition C10r_g : graph :=
+  force_graph (build_graph 3 [ (("tumor", "T"), CList ["II"; "III"]); (("lnl", "II"), CList ["III"]); (("lnl", "III"), CList []) ]).
+Definition C10r_uA : uni := new_uni C10r_g [("late", Param 1 [("p", qc 3 2)])] 2.
+Definition C10r_uB : uni := new_uni C10r_g [("late", Param 0 [("p", qc 1 3)])] 2.
+Definition C10r_mA : midline :=
+  let m := new_midline C10r_uA true true false true true in ml_with_noext m (b_with_contra (ml_noext m) C10r_uB).
+Definition C10r_mB1 : midline :=
+  fst (m_set_params (new_midline C10r_uB true true false true false)
+         (vals [qc 1 10; qc 2 10; qc 3 10; qc 4 10; qc 5 10; qc 6 10; qc 7 10; qc 8 10; qc 9 10; qc 1 3; qc 1 2; qc 2 3; qc 1 4; qc 1 5; qc 1 6]) []).
+Definition C10r_mB : midline :=
+  ml_with_ext C10r_mB1 (b_with_contra (ml_ext C10r_mB1)
+    (fst (u_set_params (b_contra (ml_ext C10r_mB1)) [] [(["TtoII"; "spread"], V (qc 9 10))]))).
+
+Theorem mid_set_own_params_needs_same_config_refuted : C10_mid_set_own_params_needs_same_config_refuted_stmt.
+Proof.
+  exists C10r_mA. split; [vm_compute; reflexivity|]. split; [apply m_spread_validb_ok; vm_compute; reflexivity|].
+  split; [vm_compute; reflexivity|]. split; vm_compute; reflexivity.
+Qed.
+Theorem mid_set_own_params_model_identity_refuted : C10_mid_set_own_params_model_identity_refuted_stmt.
+Proof.
+  exists C10r_mB. split; [vm_compute; reflexivity|]. split; [apply m_spread_validb_ok; vm_compute; reflexivity|].
+  split; [vm_compute; reflexivity|]. split; [apply own_dists_acceptedb_ok; vm_compute; reflexivity|].
+  split; [vm_compute; reflexivity|].
+  intros H. apply (f_equal (fun x => out_leaf (b_contra (ml_ext x)))) in H. vm_compute in H. discriminate H.
+Qed.
+
+(** * 2'. set_params( **get_params()) leaves a CONSISTENT object unchanged *)
+(** For an object in the invariant of C11 ([Sync.m_consistent]: the sub-models share their
+    parameters as the Midline setters leave them, and carry the same distributions / max_time)
+    with valid values, [set_params( **get_params())] changes NOTHING: the strong reading of the
+    Unilateral statement.  By [C10_mid_set_own_params_model_identity_refuted_stmt] the
+    synchronisation hypothesis cannot be dropped. *)
+Definition C10_mid_set_own_params_model_identity_stmt : Prop :=
+  forall m, m_names_ok m = true -> m_spread_valid m -> in_unit (ml_midext m) = true -> Sync.m_consistent m ->
+    forallb (fun td => dist_valid (u_maxt (ml_ei m)) (snd td)) (u_dists (ml_ei m)) = true ->
+    m_set_params m [] (own_kwargs (mid_items m)) = (m, Some []).
+
+Lemma own_kwargs_keys (l : list (path * Qc)) : map fst (own_kwargs l) = map fst l.
+Proof. unfold own_kwargs. rewrite map_map. reflexivity. Qed.
+Lemma map_lv (X : list (path * Qc)) (f : path -> val) : (forall k x, In (k, x) X -> f k = V x) -> map f (map fst X) = vals (map snd X).
+Proof.
+  induction X as [|[k x] X IH]; intros H; [reflexivity|]. cbn [map fst snd vals]. rewrite (H k x) by (left; reflexivity).
+  f_equal. apply IH. intros k' x' Hin. apply H. right. exact Hin.
+Qed.
+Lemma put_own sel u : u_put_sel sel u (map snd (u_sel_items sel u)) = u.
+Proof. unfold u_put_sel, u_sel_items. rewrite edges_put_own. destruct u as [g ms ds mt]. destruct g. reflexivity. Qed.
+Lemma mixed_items_vals mix Ti : forall Tc, map snd (Sync.mixed_items mix Ti Tc) = SafeMidline.mixed mix (map snd Ti) (map snd Tc).
+Proof.
+  unfold Sync.mixed_items, SafeMidline.mixed. induction Ti as [|[k x] Ti IH]; intros [|[k' y] Tc]; try reflexivity.
+  cbn [map combine fst snd]. f_equal. apply (IH Tc).
+Qed.
+
+Section OwnIdentity.
+  Variable m : midline.
+  Hypothesis Hsafe : m_names_ok m = true.
+  Hypothesis Hcons : Sync.m_consistent m.
+  Hypothesis Hdv : forallb (fun td => dist_valid (u_maxt (ml_ei m)) (snd td)) (u_dists (ml_ei m)) = true.
+  Let its := m_items m.
+  Let v := vals (map snd its).
+  Notation ei := (ml_ei m).
+  Notation ec := (ml_ec m).
+  Notation ni := (ml_ni m).
+  Notation nc := (ml_nc m).
+  Notation lv := (SafeMidline.LV m v).
+
+  Lemma mkw_own : SafeMidline.mkw m v = own_kwargs its.
+  Proof. unfold SafeMidline.mkw, m_names, v. symmetry. apply own_kwargs_combine. Qed.
+  Lemma LV_own K x : In (K, x) its -> lv K = V x.
+  Proof.
+    intros H. unfold SafeMidline.LV. rewrite mkw_own. rewrite (kw_get_NoDup_In K (V x)); [reflexivity | |].
+    - rewrite own_kwargs_keys. apply (proj2 (safe_mid_names_nodup m Hsafe)).
+    - unfold own_kwargs. apply in_map_iff. exists (K, x). split; [reflexivity | exact H].
+  Qed.
+
+  (** where the values of the leaves are reported *)
+  Lemma its_T_ei k x : In (k, x) (u_tumor_items ei) -> In ("ipsi" :: k, x) its.
+  Proof.
+    intros H. unfold its, m_items, m_spread_items. apply in_app_iff. left. fold ei.
+    destruct (ml_mixing m), (ml_symL m); rewrite ?pre_app, ?in_app_iff; repeat left; apply (in_pre_items ["ipsi"]), H.
+  Qed.
+  Lemma its_T_nc k x : In (k, x) (u_tumor_items nc) -> In (SafeMidline.cpre m ++ k, x) its.
+  Proof.
+    intros H. unfold its, m_items, m_spread_items, SafeMidline.cpre. apply in_app_iff. left. fold nc.
+    destruct (ml_mixing m), (ml_symL m); rewrite ?pre_app, ?in_app_iff.
+    - right. left. apply in_pre_items, H.
+    - right. left. left. apply in_pre_items, H.
+    - right. left. apply in_pre_items, H.
+    - right. left. apply in_pre_items, H.
+  Qed.
+  Lemma its_T_ec k x : ml_mixing m = None -> In (k, x) (u_tumor_items ec) -> In ("ext" :: "contra" :: k, x) its.
+  Proof.
+    intros E H. unfold its, m_items, m_spread_items. apply in_app_iff. left. fold ec. rewrite E.
+    destruct (ml_symL m); rewrite ?pre_app, ?in_app_iff; right; right; left; apply (in_pre_items ["ext"; "contra"]), H.
+  Qed.
+  Lemma its_L_ei k x : In (k, x) (u_lnl_items ei) -> In (SafeMidline.lpre m "ipsi" ++ k, x) its.
+  Proof.
+    intros H. unfold its, m_items, m_spread_items, SafeMidline.lpre. apply in_app_iff. left. fold ei.
+    destruct (ml_mixing m), (ml_symL m); rewrite ?pre_app, ?in_app_iff; cbn [app].
+    - right. right. right. exact H.
+    - left. right. apply (in_pre_items ["ipsi"]), H.
+    - right. right. right. exact H.
+    - left. right. apply (in_pre_items ["ipsi"]), H.
+  Qed.
+  Lemma its_L_ec k x : ml_symL m = false -> In (k, x) (u_lnl_items ec) -> In ("contra" :: k, x) its.
+  Proof.
+    intros E H. unfold its, m_items, m_spread_items. apply in_app_iff. left. fold ec. rewrite E.
+    destruct (ml_mixing m); rewrite ?pre_app, ?in_app_iff.
+    - right. left. right. apply (in_pre_items ["contra"]), H.
+    - right. right. right. apply (in_pre_items ["contra"]), H.
+  Qed.
+  Lemma its_D k x : In (k, x) (u_dist_items ei) -> In (k, x) its.
+  Proof. intros H. unfold its, m_items. rewrite !in_app_iff. right. left. exact H. Qed.
+  Lemma its_mixing x : ml_mixing m = Some x -> In (["mixing"], x) its.
+  Proof.
+    intros E. unfold its, m_items, m_spread_items. apply in_app_iff. left. rewrite E.
+    destruct (ml_symL m); rewrite ?in_app_iff; right; right; [left|]; left; reflexivity.
+  Qed.
+  Lemma its_midext : In (["midext"; "prob"], ml_midext m) its.
+  Proof. unfold its, m_items. rewrite !in_app_iff. right. right. left. reflexivity. Qed.
+
+  (** the values the call hands to the leaves *)
+  Let Hlike_ec : SafeMidline.like_ei m ec. Proof. apply (SafeMidline.m_ok_bi m (ml_ext m) Hsafe (SafeMidline.m_ok_ext m Hsafe)). Qed.
+  Let Hlike_nc : SafeMidline.like_ei m nc. Proof. apply (SafeMidline.m_ok_bi m (ml_noext m) Hsafe (SafeMidline.m_ok_noext m Hsafe)). Qed.
+  Lemma vTi_own : SafeMidline.vTi m v = vals (map snd (u_tumor_items ei)).
+  Proof. unfold SafeMidline.vTi, SafeMidline.TK. apply (map_lv (u_tumor_items ei)). intros k x H. apply LV_own, its_T_ei, H. Qed.
+  Lemma vTc_own : SafeMidline.vTc m v = vals (map snd (u_tumor_items nc)).
+  Proof.
+    unfold SafeMidline.vTc. destruct Hlike_nc as (_ & HT & _). rewrite <- HT.
+    apply (map_lv (u_tumor_items nc)). intros k x H. apply LV_own, its_T_nc, H.
+  Qed.
+  Lemma vTe_own : ml_mixing m = None -> SafeMidline.vTe m v = vals (map snd (u_tumor_items ec)).
+  Proof.
+    intros E. unfold SafeMidline.vTe. destruct Hlike_ec as (_ & HT & _). rewrite <- HT.
+    apply (map_lv (u_tumor_items ec)). intros k x H. apply LV_own, (its_T_ec k x E H).
+  Qed.
+  Lemma vLi_own : SafeMidline.vLi m v = vals (map snd (u_lnl_items ei)).
+  Proof. unfold SafeMidline.vLi, SafeMidline.LK. apply (map_lv (u_lnl_items ei)). intros k x H. apply LV_own, its_L_ei, H. Qed.
+  Lemma vLc_own : ml_symL m = false -> SafeMidline.vLc m v = vals (map snd (u_lnl_items ec)).
+  Proof.
+    intros E. unfold SafeMidline.vLc, SafeMidline.lpre. rewrite E. destruct Hlike_ec as (_ & _ & HL & _). rewrite <- HL.
+    apply (map_lv (u_lnl_items ec)). intros k x H. apply LV_own, (its_L_ec k x E H).
+  Qed.
+  Lemma vD_own : SafeMidline.vD m v = vals (map snd (u_dist_items ei)).
+  Proof. unfold SafeMidline.vD, SafeMidline.DK. apply (map_lv (u_dist_items ei)). intros k x H. apply LV_own, its_D, H. Qed.
+
+  (** a leaf that receives its own values and carries the distributions of ext.ipsi is unchanged *)
+  Lemma ds_own u : u_dists u = u_dists ei -> u_maxt u = u_maxt ei -> SafeMidline.force_ds m v u = u_dists u.
+  Proof.
+    intros Hd Hm. unfold SafeMidline.force_ds, SafeMidline.leaf_ds. rewrite vD_own, Hd, Hm. unfold u_dist_items.
+    rewrite (dists_put_own _ _ Hdv). reflexivity.
+  Qed.
+  Lemma with_dists_own u : u_with_dists u (u_dists u) = u.
+  Proof. destruct u. reflexivity. Qed.
+  Lemma leaf_fin_own u qT qL : qT = map snd (u_tumor_items u) -> qL = map snd (u_lnl_items u) ->
+    u_dists u = u_dists ei -> u_maxt u = u_maxt ei -> SafeMidline.leaf_fin m v u qT qL = u.
+  Proof.
+    intros -> -> Hd Hm. unfold SafeMidline.leaf_fin. change (u_tumor_items u) with (u_sel_items T u). rewrite put_own.
+    change (u_lnl_items u) with (u_sel_items L u). rewrite put_own. cbv zeta. rewrite (ds_own u Hd Hm). apply with_dists_own.
+  Qed.
+  Lemma bi_ds_own b : u_dists (b_ipsi b) = u_dists ei -> u_maxt (b_ipsi b) = u_maxt ei ->
+    u_dists (b_contra b) = u_dists ei -> u_maxt (b_contra b) = u_maxt ei -> SafeMidline.bi_ds m v b = b.
+  Proof.
+    intros H1 H2 H3 H4. unfold SafeMidline.bi_ds. rewrite (ds_own _ H1 H2), (ds_own _ H3 H4), !with_dists_own. destruct b. reflexivity.
+  Qed.
+
+  Theorem own_identity : m_spread_valid m -> in_unit (ml_midext m) = true -> m_set_params m [] (own_kwargs its) = (m, Some []).
+  Proof.
+    intros Hval Hmid. destruct Hcons as [(S1 & S2 & S3 & S4 & S5 & S6) Hcfg].
+    change (Sync.ext_i m) with ei in *. change (Sync.ext_c m) with ec in *. change (Sync.noext_c m) with nc in *.
+    unfold Sync.u_T, Sync.u_L in *.
+    assert (Hcf : forall u, In u (Sync.all_leaves m) -> u_dists u = u_dists ei /\ u_maxt u = u_maxt ei)
+      by (intros u Hu; destruct (Hcfg u Hu) as (_ & A & B); split; assumption).
+    pose proof (own_accepts m Hsafe Hval Hmid (same_config_own_dists m Hcfg Hdv)) as Hacc. fold its v in Hacc.
+    assert (Hl : length v = length (m_items m)) by (unfold v; rewrite vals_length, map_length; reflexivity).
+    destruct (SafeMidline.m_set_accept m v Hsafe safe_mid_names_nodup Hl Hacc) as (q & qTi & qTc & qTe & mixo & qLi & qLc & Hset & HT & HL & Hq & _).
+    rewrite mkw_own in Hset. rewrite Hset. f_equal.
+    (* the values *)
+    unfold SafeMidline.tumor_vals in HT. rewrite vTi_own, vTc_own in HT.
+    destruct (all_unit (vals (map snd (u_tumor_items ei)))) as [x1|] eqn:A1; [|discriminate]. apply all_unit_vals_inv in A1. subst x1.
+    destruct (all_unit (vals (map snd (u_tumor_items nc)))) as [x2|] eqn:A2; [|discriminate]. apply all_unit_vals_inv in A2. subst x2.
+    unfold SafeMidline.lnl_vals in HL. rewrite vLi_own in HL.
+    destruct (all_unit (vals (map snd (u_lnl_items ei)))) as [x3|] eqn:A3; [|discriminate]. apply all_unit_vals_inv in A3. subst x3.
+    destruct (all_unit (SafeMidline.vLc m v)) as [x4|] eqn:A4; [|discriminate]. injection HL as <- <-.
+    rewrite (LV_own _ _ its_midext) in Hq. apply check_unit_Some in Hq. destruct Hq as [[= <-] _].
+    assert (HqLc : (if ml_symL m then map snd (u_lnl_items ei) else x4) = map snd (u_lnl_items ec)).
+    { destruct (ml_symL m) eqn:EsymL; [rewrite (S6 eq_refl); reflexivity|]. rewrite (vLc_own EsymL) in A4. apply all_unit_vals_inv in A4. exact A4. }
+    assert (HqTe : match mixo with Some mix => SafeMidline.mixed mix qTi qTc | None => qTe end = map snd (u_tumor_items ec)
+                   /\ match mixo with Some mix => Some mix | None => ml_mixing m end = ml_mixing m
+                   /\ qTi = map snd (u_tumor_items ei) /\ qTc = map snd (u_tumor_items nc)).
+    { destruct (ml_mixing m) as [cur|] eqn:Emix.
+      - rewrite (LV_own _ _ (its_mixing cur Emix)) in HT. destruct (check_unit (V cur)) as [mix|] eqn:Ec; [|discriminate].
+        apply check_unit_Some in Ec. destruct Ec as [[= <-] _]. injection HT as <- <- _ <-.
+        rewrite (S3 cur eq_refl), mixed_items_vals. repeat split.
+      - rewrite (vTe_own Emix) in HT.
+        destruct (all_unit (vals (map snd (u_tumor_items ec)))) as [x5|] eqn:A5; [|discriminate]. apply all_unit_vals_inv in A5. subst x5.
+        injection HT as <- <- <- <-. repeat split. }
+    destruct HqTe as (HTe & Hmixo & -> & ->).
+    (* membership of the leaves in the lists of the invariant *)
+    assert (Iei : In ei (Sync.all_leaves m)) by (unfold Sync.all_leaves, Sync.ext_i; cbn; tauto).
+    assert (Iec : In ec (Sync.all_leaves m)) by (unfold Sync.all_leaves, Sync.ext_c; cbn; tauto).
+    assert (Ini : In ni (Sync.all_leaves m)) by (unfold Sync.all_leaves, Sync.noext_i; cbn; tauto).
+    assert (Inc : In nc (Sync.all_leaves m)) by (unfold Sync.all_leaves, Sync.noext_c; cbn; tauto).
+    assert (Pni : In ni (Sync.ipsi_leaves m)) by (unfold Sync.ipsi_leaves, Sync.noext_i; cbn; tauto).
+    assert (Cnc : In nc (Sync.contra_leaves m)) by (unfold Sync.contra_leaves, Sync.noext_c; cbn; tauto).
+    apply SafeMidline.midline_ext; unfold SafeMidline.m_explicit; cbn [ml_ext ml_noext ml_central ml_unknown ml_mixing ml_midext ml_evo ml_symL].
+    - change (b_ipsi (ml_ext m)) with ei. change (b_contra (ml_ext m)) with ec.
+      rewrite (leaf_fin_own ei _ _ eq_refl eq_refl eq_refl eq_refl).
+      rewrite (leaf_fin_own ec _ _ HTe HqLc (proj1 (Hcf ec Iec)) (proj2 (Hcf ec Iec))). unfold ml_ei, ml_ec. destruct (ml_ext m). reflexivity.
+    - change (b_ipsi (ml_noext m)) with ni. change (b_contra (ml_noext m)) with nc.
+      rewrite (leaf_fin_own ni _ _ (eq_sym (f_equal (map snd) (S1 ni Pni))) (eq_sym (f_equal (map snd) (S4 ni Pni))) (proj1 (Hcf ni Ini)) (proj2 (Hcf ni Ini))).
+      rewrite (leaf_fin_own nc _ _ eq_refl (eq_trans HqLc (eq_sym (f_equal (map snd) (S5 nc Cnc)))) (proj1 (Hcf nc Inc)) (proj2 (Hcf nc Inc))).
+      unfold ml_ni, ml_nc. destruct (ml_noext m). reflexivity.
+    - destruct (ml_central m) as [c|] eqn:Ec; [|reflexivity]. cbn [option_map]. f_equal.
+      assert (Ici : In (b_ipsi c) (Sync.all_leaves m)) by (unfold Sync.all_leaves; rewrite Ec; cbn; tauto).
+      assert (Icc : In (b_contra c) (Sync.all_leaves m)) by (unfold Sync.all_leaves; rewrite Ec; cbn; tauto).
+      assert (Pci : In (b_ipsi c) (Sync.ipsi_leaves m)) by (unfold Sync.ipsi_leaves; rewrite Ec; cbn; tauto).
+      assert (Ccc : In (b_contra c) (Sync.contra_leaves m)) by (unfold Sync.contra_leaves; rewrite Ec; cbn; tauto).
+      rewrite (leaf_fin_own (b_ipsi c) _ _ (eq_sym (f_equal (map snd) (S1 _ Pci))) (eq_sym (f_equal (map snd) (S4 _ Pci))) (proj1 (Hcf _ Ici)) (proj2 (Hcf _ Ici))).
+      rewrite (leaf_fin_own (b_contra c) _ _ (eq_sym (f_equal (map snd) (S2 c eq_refl))) (eq_trans HqLc (eq_sym (f_equal (map snd) (S5 _ Ccc)))) (proj1 (Hcf _ Icc)) (proj2 (Hcf _ Icc))).
+      destruct c. reflexivity.
+    - destruct (ml_unknown m) as [k|] eqn:Ek; [|reflexivity]. cbn [option_map]. f_equal.
+      assert (Iki : In (b_ipsi k) (Sync.all_leaves m)) by (unfold Sync.all_leaves; rewrite Ek; destruct (ml_central m); cbn; tauto).
+      assert (Ikc : In (b_contra k) (Sync.all_leaves m)) by (unfold Sync.all_leaves; rewrite Ek; destruct (ml_central m); cbn; tauto).
+      apply bi_ds_own; [apply (Hcf _ Iki) | apply (Hcf _ Iki) | apply (Hcf _ Ikc) | apply (Hcf _ Ikc)].
+    - exact Hmixo.
+    - reflexivity.
+    - reflexivity.
+    - reflexivity.
+  Qed.
+End OwnIdentity.
+
+Theorem mid_set_own_params_model_identity : C10_mid_set_own_params_model_identity_stmt.
+Proof.
+  intros m Hsafe Hval Hmid Hcons Hdv. rewrite <- safe_items_mid. apply (own_identity m Hsafe Hcons Hdv Hval Hmid).
+Qed.
